@@ -46,6 +46,7 @@ Observed(e, m, o) ==
   /\ [i \in 1..Len(e.calls) |-> e.calls[i].field] = x.stubs
   /\ o.kind = "delegate" => e.calls[1].args = e.passed
   /\ Len(e.ctor) = x.ctors
+  /\ x.ctors = 1 => e.ctor[1].ctx = e.passed[1]                   \* the constructor is handed the caller's context
   \* results
   /\ IF x.values = "stub" THEN e.got = e.prog.vals
      ELSE \A i \in 1..Len(e.got) : e.got[i] = "zero"
@@ -63,7 +64,7 @@ Observed(e, m, o) ==
           /\ e.yields1 = e.yields
   \* the method name reported (observation only)
   /\ StrictErrName =>
-       /\ x.ctors = 1 => (e.ctor[1].name = ErrName(m) /\ e.ctor[1].ctx = e.passed[1])
+       /\ x.ctors = 1 => e.ctor[1].name = ErrName(m)
        /\ x.error = "unsupported" =>
             (IF x.iter THEN e.yields[1].e.msgname ELSE e.err.msgname) = ErrName(m)
 
@@ -71,9 +72,11 @@ Step(e) ==
   /\ e.m \in Methods
   /\ ToSet(e.F) \subseteq Methods
   /\ e.nilrecv => (e.F = <<>> /\ ~e.custom)
+  /\ e.cx \in CtxVals
   /\ OwnFieldOnlyAt(e.m, ToSet(e.F), e.custom, e.nilrecv)
-  \* the outcome is judged whatever the arguments were (e.av: the abstract argument values, <<>> if generated)
-  /\ Observed(e, e.m, CallWithArgs(e.m, ToSet(e.F), e.custom, e.nilrecv, e.av))
+  \* the outcome is judged whatever the arguments were (e.av: the abstract argument values, <<>> if generated;
+  \* e.cx: the kind of context really passed)
+  /\ Observed(e, e.m, CallWithArgs(e.m, ToSet(e.F), e.custom, e.nilrecv, e.av, e.cx))
 
 TInit == l = 2
 TNext ==
